@@ -411,9 +411,9 @@ func isNilConst(v ssa.Value) bool {
 
 // condBranch describes an If instruction comparing a value against nil / a constant
 type nilTest struct {
-	If    *ssa.If
-	X     ssa.Value
-	OnNil *ssa.BasicBlock // successor taken when X == nil
+	If     *ssa.If
+	X      ssa.Value
+	OnNil  *ssa.BasicBlock // successor taken when X == nil
 	NotNil *ssa.BasicBlock
 }
 
